@@ -573,3 +573,75 @@ Proof.
   replace (bpow radix2 zorigin) with 33554432%R by (unfold zorigin; cbn; lra).
   split; [apply Zfloor_imp; cbn; lra|]. split; [apply Zfloor_imp; cbn; lra|]. cbn. lra.
 Qed.
+
+(* =====================================================================================================================
+   7. The TileXYZ object: constructor, setters, getters (common/object/id_object.go)
+   ===================================================================================================================== *)
+(* `&object.TileXYZ{}` *)
+Definition zero_tile : tile := mkt 0 0 0 0 0.
+(* the five setters. SetHZoom / SetVZoom return an error and leave the object unchanged outside [0, MaxTileXYZZoom]; SetX / SetY / SetZ
+   store any value. Result: (error?, object afterwards) *)
+Inductive tile_op := SetH (h : Z) | SetX (x : Z) | SetY (y : Z) | SetV (v : Z) | SetZ (z : Z).
+Definition apply_op (t : tile) (o : tile_op) : bool * tile :=
+  match o with
+  | SetH h => if tile_zoom_ok h then (false, mkt h (tx t) (ty t) (tv t) (tz t)) else (true, t)
+  | SetX x => (false, mkt (th t) x (ty t) (tv t) (tz t))
+  | SetY y => (false, mkt (th t) (tx t) y (tv t) (tz t))
+  | SetV v => if tile_zoom_ok v then (false, mkt (th t) (tx t) (ty t) v (tz t)) else (true, t)
+  | SetZ z => (false, mkt (th t) (tx t) (ty t) (tv t) z)
+  end.
+(* a sequence of setter calls: the (error?, getters) observed after every call *)
+Fixpoint run_ops (t : tile) (ops : list tile_op) : list (bool * tile) :=
+  match ops with [] => [] | o :: r => let '(e, t') := apply_op t o in (e, t') :: run_ops t' r end.
+Definition final_tile (t : tile) (ops : list tile_op) : tile := fold_left (fun s o => snd (apply_op s o)) ops t.
+
+Lemma tile_zoom_ok_spec z : tile_zoom_ok z = true <-> 0 <= z <= 35.
+Proof. unfold tile_zoom_ok, max_tile_zoom. rewrite andb_true_iff, !Z.leb_le. tauto. Qed.
+
+(* get-after-set and frame, one theorem per setter *)
+Theorem set_x_spec t x : let '(e, t') := apply_op t (SetX x) in e = false /\ tx t' = x /\ th t' = th t /\ ty t' = ty t /\ tv t' = tv t /\ tz t' = tz t.
+Proof. cbn. tauto. Qed.
+Theorem set_y_spec t y : let '(e, t') := apply_op t (SetY y) in e = false /\ ty t' = y /\ th t' = th t /\ tx t' = tx t /\ tv t' = tv t /\ tz t' = tz t.
+Proof. cbn. tauto. Qed.
+Theorem set_z_spec t z : let '(e, t') := apply_op t (SetZ z) in e = false /\ tz t' = z /\ th t' = th t /\ tx t' = tx t /\ ty t' = ty t /\ tv t' = tv t.
+Proof. cbn. tauto. Qed.
+Theorem set_h_spec t h : let '(e, t') := apply_op t (SetH h) in
+  (0 <= h <= 35 -> e = false /\ th t' = h /\ tx t' = tx t /\ ty t' = ty t /\ tv t' = tv t /\ tz t' = tz t) /\
+  (~ 0 <= h <= 35 -> e = true /\ t' = t).
+Proof.
+  cbn [apply_op]. destruct (tile_zoom_ok h) eqn:Z.
+  - apply tile_zoom_ok_spec in Z. cbn. split; [tauto|]. intros N. contradiction.
+  - split; [|tauto]. intros Hh. apply tile_zoom_ok_spec in Hh. congruence.
+Qed.
+Theorem set_v_spec t v : let '(e, t') := apply_op t (SetV v) in
+  (0 <= v <= 35 -> e = false /\ tv t' = v /\ th t' = th t /\ tx t' = tx t /\ ty t' = ty t /\ tz t' = tz t) /\
+  (~ 0 <= v <= 35 -> e = true /\ t' = t).
+Proof.
+  cbn [apply_op]. destruct (tile_zoom_ok v) eqn:Z.
+  - apply tile_zoom_ok_spec in Z. cbn. split; [tauto|]. intros N. contradiction.
+  - split; [|tauto]. intros Hv. apply tile_zoom_ok_spec in Hv. congruence.
+Qed.
+(* setting a field to the value it already has changes nothing; a refused call changes nothing *)
+Theorem apply_op_error_keeps_object t o : fst (apply_op t o) = true -> snd (apply_op t o) = t.
+Proof. destruct o; cbn; try discriminate; destruct (tile_zoom_ok _); cbn; congruence. Qed.
+
+(* INVARIANT: whatever the sequence of setters, an object that came from NewTileXYZ (or from the zero value) keeps both zooms in 0..35 —
+   so a request can only contain tiles that NewTileXYZ could have returned, and the conversions never see another zoom *)
+Definition zooms_valid (t : tile) : Prop := 0 <= th t <= 35 /\ 0 <= tv t <= 35.
+Lemma apply_op_zooms_valid t o : zooms_valid t -> zooms_valid (snd (apply_op t o)).
+Proof.
+  unfold zooms_valid. destruct o; cbn; try tauto; destruct (tile_zoom_ok _) eqn:Z; cbn; try tauto; apply tile_zoom_ok_spec in Z; tauto.
+Qed.
+Theorem setters_keep_zooms_valid t ops : zooms_valid t -> zooms_valid (final_tile t ops).
+Proof. unfold final_tile. revert t. induction ops as [|o r IH]; intros t H; [exact H|]. cbn. apply IH, apply_op_zooms_valid, H. Qed.
+Theorem zero_tile_zooms_valid : zooms_valid zero_tile.
+Proof. unfold zooms_valid. cbn. lia. Qed.
+Theorem new_tile_zooms_valid h x y v z t : new_tile h x y v z = Ok t -> zooms_valid t.
+Proof. intros H. apply new_tile_ok in H. unfold zooms_valid. tauto. Qed.
+Theorem reachable_tile_is_constructible t : zooms_valid t -> new_tile (th t) (tx t) (ty t) (tv t) (tz t) = Ok t.
+Proof. intros [H V]. destruct (new_tile_spec (th t) (tx t) (ty t) (tv t) (tz t)) as [A _]. rewrite (A (conj H V)). now destruct t. Qed.
+Example setter_sequence_example :
+  run_ops zero_tile [SetH 36; SetH 20; SetX (-7); SetV (-1); SetV 23; SetZ 5; SetH 40] =
+  [(true, mkt 0 0 0 0 0); (false, mkt 20 0 0 0 0); (false, mkt 20 (-7) 0 0 0); (true, mkt 20 (-7) 0 0 0); (false, mkt 20 (-7) 0 23 0);
+   (false, mkt 20 (-7) 0 23 5); (true, mkt 20 (-7) 0 23 5)].
+Proof. vm_compute. reflexivity. Qed.
